@@ -107,6 +107,9 @@ pub fn run(ctx: &Ctx) -> Report {
         let mut sec = Section::new(&format!("wild-programs-pin-level[{}]", ctx.variant), "as wild-programs, through SpiInterface / ParallelInterface");
         run_generated(&mut sec, ctx.seed ^ 0x52, ctx.cases(0, 300_000), ctx.workers, || strategy(gen::ConfigMenu::pin_level(), 4), check, sig);
         rep.sections.push(sec);
+        let mut sec = Section::new(&format!("long-wild-programs[{}]", ctx.variant), "as wild-programs, up to 25 calls per display");
+        run_generated(&mut sec, ctx.seed ^ 0x53, ctx.cases(0, 300_000), ctx.workers, || strategy(gen::ConfigMenu::all_transports(), 25), check, sig);
+        rep.sections.push(sec);
     }
     rep
 }
